@@ -440,7 +440,9 @@ func (user *userImpl) CollectionChannelGrantedPeriods(scope, collection, chanNam
 		}
 	}
 
-	roles, err := user.GetRoles()
+	// Include deleted roles that are still assigned to the user: their channels were moved to the role's channel history
+	// when the role was deleted, and the user held them until then.
+	roles, err := user.GetRolesIncDeleted()
 	if err != nil {
 		return nil, err
 	}
